@@ -95,8 +95,15 @@ def run(ctx):
                 sel_items = gk + ["%s(%s)" % (a, arg) for a in aggs]
                 if ordspec:
                     order = " order by " + ", ".join("%s%s" % (sel_items[oi], " desc" if desc else "") for oi, desc in ordspec)
-                q = "select %s from .%s group by %s%s into list" % (", ".join(sel_items), where, ", ".join(gk), order)
-                qrows = "select %s, %s from .%s into list" % (", ".join(gk), arg, where)
+                # every fifth query names two disjoint roots: a key value met under both roots is still ONE group
+                roots = "."
+                top_dirs = [n["rel"] for n in snap.nodes if n["kind"] == "d" and "/" not in n["rel"] and all(ch.isalnum() or ch in "._-" for ch in n["rel"])]
+                if len(top_dirs) >= 2 and r.chance(1, 5) and "dir" not in gk:
+                    two = r.sample(top_dirs, 2)
+                    roots = "./%s, ./%s" % (two[0], two[1])
+                    ctx.count("two_root_grouped_queries")
+                q = "select %s from %s%s group by %s%s into list" % (", ".join(sel_items), roots, where, ", ".join(gk), order)
+                qrows = "select %s, %s from %s%s into list" % (", ".join(gk), arg, roots, where)
                 ctx.case((t, q))
                 m, impl = corr.run_case(ctx, snap, [q], fmt="list", ncols=len(sel_items))
                 rr = common.run_cli([qrows], cwd=snap.root, scratch=scratch)
